@@ -351,13 +351,13 @@ Valid(env, s, d, D, ctx, lim) ==
          LET names == UNION {PropNames(ResolveB(env, s.allOf[i])) : i \in DOMAIN s.allOf}
              dfl   == UNION {{k \in PropNames(ResolveB(env, s.allOf[i])) :
                                  Has(PropSchema(ResolveB(env, s.allOf[i]), k), "default")} : i \in DOMAIN s.allOf}
-             br(i) == ResolveB(env, s.allOf[i]) @@ ("declared" :> names) @@ ("defaulted" :> dfl)
+             br(i) == ResolveB(env, s.allOf[i]) @@ ("declared" :> names) @@ ("defaulted" :> dfl) @@ ("isbranch" :> TRUE)
          IN IF "AllOfFirstWins" \in D /\ d.t = "obj"
             THEN Valid(env, MergedSchema(env, s.allOf), d, D, "decl", NoLim)    \* deviation: the merged schema decides
             ELSE And3({Valid(env, br(i), d, D, "decl", NoLim) : i \in DOMAIN s.allOf}
                       \cup {IF d.t = "obj" THEN Acc ELSE IF d.t = "null" THEN Un ELSE Rej})
   ELSE IF Has(s, "anyOf") THEN
-         LET rs == {Valid(env, s.anyOf[i], d, D, "decl", NoLim) : i \in DOMAIN s.anyOf}
+         LET rs == {Valid(env, s.anyOf[i] @@ ("isbranch" :> TRUE), d, D, "decl", NoLim) : i \in DOMAIN s.anyOf}
              any == IF Acc \in rs THEN Acc ELSE IF Un \in rs THEN Un ELSE Rej
          IN \* deviation "AnyOfMergedDecode": after the branch validators the document is decoded into ONE struct
             \* merged from all branches, whose field types (and nested types' own checks) all apply
@@ -369,7 +369,10 @@ Valid(env, s, d, D, ctx, lim) ==
   IF d.t = "null" THEN
        IF Nullable(s) \/ T \in {"any", "null"} THEN Acc ELSE Un
   ELSE CASE T = "any"     -> \* untyped: object keywords still constrain values that are objects
+                             \* (deviation "UntypedPropertiesUnvalidated": a schema without `type` is interface{} for the
+                             \* tool even when it declares properties and a required list -- nothing is checked)
                              IF d.t = "obj" /\ (Has(s, "properties") \/ Has(s, "required"))
+                                /\ ("UntypedPropertiesUnvalidated" \notin D \/ Has(s, "isbranch"))     \* (branches are merged into a struct)
                              THEN ValidObj(env, s, d, D) ELSE Acc
          [] T = "null"    -> Rej
          [] T = "boolean" -> B3(d.t = "bool")
@@ -494,6 +497,7 @@ DevNeeds(x) ==
     [] x \in {"NestedArrayOuterLimits", "DeclaredArrayNestedUnchecked"} -> {"minItems", "maxItems"}
     [] x \in {"DeclaredArrayElemUnvalidated", "ArrayItemConstraintsIgnored"} -> {"items"}
     [] x = "RequiredUndeclaredIgnored" -> {"required"}
+    [] x = "UntypedPropertiesUnvalidated" -> {"properties", "required"}
     [] x \in {"AddlIntTruncates", "AddlValuesTypedOnly", "AddlKeyEqualsFieldNameDropped", "AddlEmptyKeyDropped",
               "UntypedAddlNotCollected", "AddlMapDefaultDropped", "AddlNullPanics"} -> {"additionalProperties"}
     [] x \in {"Float64Bounds", "IntBoundTruncated"} -> {"minimum", "maximum", "exclusiveMinimum", "exclusiveMaximum"}
